@@ -337,7 +337,7 @@ pub fn replay(v: &serde_json::Value) -> Result<Option<String>, String> {
 }
 
 pub fn run(tier: Tier, seed: u64) -> i32 {
-    let rule = "valid FAT12/16/32 bases (library-formatted and imggen) with patched boot-sector / FS-info bytes: block A = every value of each 8-bit and 16-bit BPB field (exhaustive) x strict/non-strict; block B = every power of two, +-1, field-specific boundaries and random values of each 32-bit field and FS-info word; block C = random combinations of 2..6 patched fields from interesting-value sets; block D = fully random boot sectors; oracle = no panic/overflow/budget overrun, and accepted => independent 64-bit parse finds the geometry coherent and agrees on width, cluster size, cluster count; non-trivial = at least one geometry-relevant field differs from the base; distinct by hash of the patch set";
+    let rule = "valid FAT12/16/32 bases (library-formatted and imggen) with patched boot-sector / FS-info bytes: block A = every value of each 8-bit and 16-bit BPB field (exhaustive) x strict/non-strict; block B = every power of two, +-1, field-specific boundaries and random values of each 32-bit field and FS-info word; block C = random combinations of 2..6 patched fields from interesting-value sets; block C2 = FAT12/16-style BPBs whose cluster count is pushed over the FAT16 limit while sector 0 itself carries the FS-info signatures; block D = fully random boot sectors; oracle = no panic/overflow/budget overrun, and accepted => independent 64-bit parse finds the geometry coherent and agrees on width, cluster size, cluster count; non-trivial = at least one geometry-relevant field differs from the base; distinct by hash of the patch set";
     let mut rep = Report::new("C07", tier, seed, "exploration", rule);
     rep.assume("the library may reject more than the property's necessary conditions (FS-info signatures, fs version, conflicting totals): rejection is never a violation");
     rep.assume("stats() on accepted volumes is only called when the independent parse finds <= 300000 clusters (a recount of 2^28 entries is legitimately long, not a hang)");
@@ -458,6 +458,58 @@ pub fn run(tier: Tier, seed: u64) -> i32 {
             |c: &MountCase| eval(bases_ref, c),
         );
         rep.add(c);
+    }
+    // block C2: the boot sector doubling as information sector. A FAT12/16-style BPB (FATSz16 != 0) names no FS-info
+    // sector, so a reader that nevertheless takes the volume for FAT32 (cluster count pushed over the limit) looks for
+    // the FS-info signatures in sector 0 itself - and they can be there: "whatever bytes the boot sector contains".
+    if !rep.failed() {
+        let n = tier.pick(60_000u32, 2_000_000u32);
+        let bases_ref = &bases;
+        let c2 = run::run_random(
+            "fat16_style_bpb_with_fsinfo_signatures_in_sector_0",
+            seed ^ 0xC2,
+            n,
+            "mount",
+            || {
+                run::boxed((any::<u8>(), any::<bool>(), any::<u8>(), any::<u64>(), prop::collection::vec(patch_strategy(), 0..=2)).prop_map(|(base, strict, plant, rnd, extra)| {
+                    let mut m = Mix::new(rnd, 7);
+                    let mut patches = Vec::new();
+                    // total sector count moved to the 32-bit field, with interesting / random values
+                    patches.push(Patch { sector: 0, off: 19, width: 2, value: if plant & 0x80 != 0 { m.below(3) as u32 } else { 0 } });
+                    let t = match m.below(6) {
+                        0 => 65_525 + m.below(4000) as u32,
+                        1 => 70_000 + m.below(1 << 20) as u32,
+                        2 => interesting32(m.next(), &mut m),
+                        3 => 0x0FFF_FFF0 + m.below(64) as u32,
+                        4 => 1u32 << (16 + m.below(16)),
+                        _ => m.next() as u32,
+                    };
+                    patches.push(Patch { sector: 0, off: 32, width: 4, value: t });
+                    if plant & 1 != 0 {
+                        patches.push(Patch { sector: 0, off: 0, width: 4, value: 0x4161_5252 });
+                    }
+                    if plant & 2 != 0 {
+                        patches.push(Patch { sector: 0, off: 484, width: 4, value: 0x6141_7272 });
+                    }
+                    if plant & 4 != 0 {
+                        patches.push(Patch { sector: 0, off: 508, width: 2, value: 0 });
+                    }
+                    if plant & 8 != 0 {
+                        // free count / next free words of the would-be information sector
+                        patches.push(Patch { sector: 0, off: 488, width: 4, value: interesting32(m.next(), &mut m) });
+                        patches.push(Patch { sector: 0, off: 492, width: 4, value: interesting32(m.next(), &mut m) });
+                    }
+                    if plant & 0x30 == 0x30 {
+                        patches.push(Patch { sector: 0, off: 13, width: 1, value: 1 << m.below(8) });
+                    }
+                    patches.extend(extra);
+                    // FAT12/16 bases are 0, 1 and 4
+                    MountCase { base: [0u8, 1, 4, 0, 1][base as usize % 5], strict, patches, raw_sector: None }
+                }))
+            },
+            |c: &MountCase| eval(bases_ref, c),
+        );
+        rep.add(c2);
     }
     // block D: random byte-level damage of the BPB area (1..8 random bytes at random offsets in 0..90 and the
     // signature), and fully random boot sectors with a plausible sector size / cluster size / signature
